@@ -21,10 +21,12 @@ var rules = map[string]ruleFn{
 	"C03": ruleC03,
 	"C04": ruleC04,
 	"C07": ruleC07,
+	"C08": ruleC08,
 	"C09": ruleC09,
 	"C11": ruleC11,
 	"C12": ruleC12,
 	"C19": ruleC19,
+	"C20": ruleC20,
 	"C10": ruleC10,
 	"C05": ruleC05,
 	"C06": ruleC06,
